@@ -289,6 +289,9 @@ impl<'a> World<'a> {
                 if (ch.len() as u64) * (g.cluster_bytes() as u64) < len {
                     found.push(("C03", "open-file-chain-short".into(), opk.to_string(), format!("{} clusters for {} bytes", ch.len(), len)));
                 }
+                if ch.is_empty() {
+                    continue;
+                }
                 let already = reach[ch[0] as usize];
                 if !already {
                     for &c in &ch {
